@@ -531,4 +531,81 @@ theorem sessG_fresh_get (c : Cfg) {Dom : Bytes → Prop} {s : St} {T0 t : Trie} 
     exact lookupData_eq { H := c.H, dec := c.dec, ver := c.ver, db := s.db } k T0 h.dbok.dec htn
       ((toNibs k).length + 1) [] (toNibs k) (by omega) (by simp) h.dbok.stored
 
+/-! ### `Get` on a live instance -/
+
+theorem fetchMem_ok (e : Env) (T0 : Trie) (hdb : DbOk e T0) (full : Bytes) (fk : Nibs)
+    (hfk : fk = toNibs full) (dv : DVal) (hv : OkV e.ver e.H T0 fk dv) :
+    fetchMem e full dv = some (absV T0 fk dv) := by
+  cases dv with
+  | inl x => rfl
+  | fresh x => rfl
+  | ref h =>
+    obtain ⟨v, hl, hm, rfl⟩ := hv
+    have := stored_value T0 [] fk v hdb.stored hl hm
+    rw [List.nil_append, hfk, rowKey, prefixBytes_toNibs] at this
+    simp only [fetchMem, absV, this]
+    rw [hfk] at hl
+    simp [hl]
+
+/-- the in-memory walk of `TrieDB.lookup` (continued by `TrieLookup` below the first persisted
+    handle) returns the `lookup` of the trie the handle tree stands for -/
+theorem lookupMem_ok (e : Env) (T0 : Trie) (hdb : DbOk e T0) (full : Bytes) (hd : Hd) :
+    ∀ pre key, pre ++ key = toNibs full → Ok e.ver e.H T0 hd pre →
+      lookupMem e full hd pre key = lookup (abs T0 hd pre) key := by
+  induction hd with
+  | none => intro _ _ _ _; rfl
+  | empty c => intro _ _ _ hok; exact hok.elim
+  | persisted h =>
+    intro pre key hfull hok
+    obtain ⟨hne, hh, hlong⟩ := hok
+    have hrow : dbGet e.H e.db (rowKey pre h) = some (encodeNode e.ver e.H (subAt T0 pre)) := by
+      rw [hh]
+      by_cases hp : pre = []
+      · subst hp
+        simp only [subAt_nil_path] at hne ⊢
+        exact hdb.root hne
+      · have := stored_subAt T0 [] pre hdb.stored hne hp (hlong hp)
+        simpa using this
+    simp only [lookupMem, lookupDB, hrow, abs]
+    have hst := stored_at T0 [] pre hdb.stored hne
+    rw [List.nil_append] at hst
+    exact lookupData_eq e full (subAt T0 pre)
+      (fun n hn => hdb.dec n (nodeOf_trans hn (nodeOf_subAt T0 pre hne))) hne
+      (key.length + 1) pre key (by omega) hfull hst
+  | leaf c pk dv =>
+    intro pre key hfull hok
+    simp only [lookupMem, abs, lookup_leaf]
+    by_cases hk : pk = key
+    · subst hk
+      simp only [if_true]
+      exact fetchMem_ok e T0 hdb full _ hfull dv hok.1
+    · have : ¬ key = pk := fun x => hk x.symm
+      simp [hk, this]
+  | branch c pk dvo cs ih =>
+    intro pre key hfull hok
+    obtain ⟨hvals, hkids, _⟩ := hok
+    simp only [lookupMem, abs]
+    rcases key_cases pk key with rfl | ⟨i, rest, rfl⟩ | hoff
+    · simp only [if_true, lookup_branch_self]
+      cases dvo with
+      | none => rfl
+      | some dv =>
+        simp only [Option.map_some]
+        exact fetchMem_ok e T0 hdb full _ hfull dv (hvals dv rfl)
+    · have hne : ¬ (pk = pk ++ i :: rest) := self_ne_append_cons pk i rest
+      simp only [hne, if_false, isPrefixOf_append_self, if_true, drop_len_append, lookup_branch_child]
+      exact ih i _ rest (by rw [← hfull]; simp) (hkids i)
+    · have hne : ¬ pk = key := fun x => (isPrefixOf_false_ne hoff) x.symm
+      simp [hne, hoff, lookup_branch_off _ _ _ _ hoff]
+
+/-- `Get` on a live instance agrees with the trie it stands for -/
+theorem sessG_get (c : Cfg) {Dom : Bytes → Prop} {s : St} {T0 t : Trie} (h : SessG c Dom s T0 t)
+    (k : Bytes) : doGet c s k = lookup t (toNibs k) := by
+  rcases h.shape with ⟨rfl, hr, _, _⟩ | ⟨_, hok, habs, _, _, _⟩
+  · have hd0 : c.dec [0] = some .empty := h.dbok.dec0
+    simp only [doGet, hr, lookupMem, lookupDB, Cfg.env, dbGet, rowKey, prefixBytes,
+      List.nil_append, hasSuffix_self, if_true, lookupData, hd0, lookup_nil]
+  · rw [← habs]
+    exact lookupMem_ok (c.env s) T0 h.dbok k s.root [] (toNibs k) (by simp) hok
+
 end Gossamer.C06
